@@ -270,7 +270,9 @@ struct WL {
         tr.complete = true;
         int limit = op.a;  // 0: to the end
         int n = 0;
-        for (auto it = h->begin(); it != h->end(); ++it) {
+        // the handle becomes "in use" through operator-> or through operator*
+        bool star = (op.c & 2) != 0;
+        for (auto it = star ? (*h).begin() : h->begin(); it != (star ? (*h).end() : h->end()); ++it) {
             for (int y = 0; y < op.b; y++) gsim::yield();
             long v = value_of(*it);
             {
@@ -327,7 +329,8 @@ struct WL {
                         tr.begin_inv = gsim::seq();
                     }
                     tr.complete = true;
-                    auto it = h->begin();
+                    bool star = (op.b & 2) != 0;
+                    auto it = star ? (*h).begin() : h->begin();
                     bool first = true;
                     for (; it != h->end(); ++it) {
                         long v = value_of(*it);
@@ -648,7 +651,7 @@ struct WL {
                     op.code = gsim::gen_int(6) == 0 ? OP_WTRAVERSE : OP_TRAVERSE;
                     op.a = gsim::gen_int(3) == 0 ? 1 + gsim::gen_int(3) : 0;
                     op.b = gsim::gen_int(4);
-                    op.c = gsim::gen_int(2);
+                    op.c = gsim::gen_int(2) | (gsim::gen_int(3) == 0 ? 2 : 0);
                 } else if (role == 3) {
                     op.code = OP_BLIP;
                     op.a = gsim::gen_int(2);
@@ -882,7 +885,7 @@ struct WL {
         }
         for (int t = 1; t < n; t++) {
             gsim::prog_add(t, {gsim::gen_int(2) ? OP_HOLD_BLIP : OP_HOLD_TRAVERSE, gsim::gen_int(4),
-                               gsim::gen_int(2), 0});
+                               gsim::gen_int(4), 0});
             if (gsim::gen_int(3) == 0)
                 gsim::prog_add(t, {gsim::gen_int(2) ? OP_BLIP : OP_TRAVERSE, 0, gsim::gen_int(2), 0});
         }
